@@ -14,6 +14,9 @@ decl forms (python tuples):
 var  = dict(name, cls in 'viox eg'.replace(' ',''), const bool, ty in 'b','i',('n',k), init int|None)
 stmt = ('a', target, [rhs]) | ('c', inst, [(formal, var)], [positional], [(out, target)])
      | ('s', target, array, index)          `target := array[index];` (the model sees an assignment with the two names on the right)
+     an assignment may carry a fourth component (kind, name): it is written inside a statement whose condition / selector /
+     control variable is the variable `name` (`IF name > 0 THEN … END_IF`, WHILE, REPEAT … UNTIL, CASE name OF, FOR name := …,
+     ELSIF); for the model `name` is one more name read by the statement
 var ty 'a' = ARRAY[0..3] OF INT (an INT variable for the model)
 """
 import copy
@@ -89,6 +92,15 @@ def print_vars(vs, indent='  ', sty=PLAIN):
     return ''.join(out)
 
 
+COND_WRAPS = {
+    'if': lambda c, s, i: f'{i}IF {c} > 0 THEN\n{s}{i}END_IF;\n',
+    'elsif': lambda c, s, i: f'{i}IF FALSE THEN\n{i}ELSIF {c} = 1 THEN\n{s}{i}END_IF;\n',
+    'while': lambda c, s, i: f'{i}WHILE {c} < 0 DO\n{s}{i}END_WHILE;\n',
+    'repeat': lambda c, s, i: f'{i}REPEAT\n{s}{i}UNTIL {c} > 0 END_REPEAT;\n',
+    'case': lambda c, s, i: f'{i}CASE {c} OF\n{i}1:\n{s}{i}END_CASE;\n',
+    'for': lambda c, s, i: f'{i}FOR {c} := 0 TO 1 DO\n{s}{i}END_FOR;\n',
+    'for-to': lambda c, s, i: f'{i}FOR {c} := 0 TO {c} BY {c} DO\n{s}{i}END_FOR;\n',
+}
 WRAPS = [
     lambda s, i: f'{i}IF TRUE THEN\n{s}{i}END_IF;\n',
     lambda s, i: f'{i}IF FALSE THEN\n{i}ELSE\n{s}{i}END_IF;\n',
@@ -104,6 +116,8 @@ def print_stmt(s, rng=None, indent='  '):
     if s[0] == 'a':
         rhs = ' + '.join(nm(r) for r in s[2]) if s[2] else '1'
         txt = f'{indent}{nm(s[1])} := {rhs};\n'
+        if len(s) > 3 and s[3]:
+            txt = COND_WRAPS[s[3][0]](nm(s[3][1]), ''.join('  ' + l + '\n' for l in txt.rstrip('\n').split('\n')), indent)
     elif s[0] == 's':
         txt = f'{indent}{nm(s[1])} := {nm(s[2])}[{nm(s[3])}];\n'
     else:
@@ -174,7 +188,7 @@ def enc_var(v):
 
 def enc_stmt(s):
     if s[0] == 'a':
-        return f"a.{s[1]}.{'+'.join(str(r) for r in s[2])}"
+        return f"a.{s[1]}.{'+'.join(str(r) for r in (list(s[2]) + ([s[3][1]] if len(s) > 3 and s[3] else [])))}"
     if s[0] == 's':
         return f"a.{s[1]}.{s[2]}+{s[3]}"
     return f"c.{s[1]}.{'+'.join(f'{a}={b}' for a, b in s[2])}.{'+'.join(str(p) for p in s[3])}.{'+'.join(f'{a}={b}' for a, b in s[4])}"
@@ -316,6 +330,13 @@ def gen_valid(rng, size=None):
                          [rng.choice(ints) for _ in range(rng.randint(0, 3))]))
         for a in arrays:
             body.append(('s', rng.choice(writable), a, rng.choice(ints)))
+        # some assignments stand inside a statement whose condition / selector / control variable is a variable
+        loopvars = [v['name'] for v in vs if v['ty'] == 'i' and v['cls'] == 'v' and not v['const']]
+        for j, st in enumerate(body):
+            if st[0] == 'a' and rng.random() < 0.35:
+                kind = rng.choice(sorted(COND_WRAPS))
+                pool = loopvars if kind.startswith('for') else ints
+                if pool: body[j] = ('a', st[1], st[2], (kind, rng.choice(pool)))
         for (iname, callee) in insts:
             cin = [v for v in callee[2] if v['cls'] in 'ix']
             cin_only = [v for v in callee[2] if v['cls'] == 'i']
@@ -473,6 +494,8 @@ def plant_all(decls, ns, rng):
                             out.append(('call-instance-declared-in-neighbour', 'P0021', mut(i, (k, d[1], vs, body + [('c', finst[0], [], [], [])]))))
             # per statement faults
             for j, s in enumerate(body):
+                if s[0] == 'a' and len(s) > 3 and s[3]:
+                    out.append(('undefined-var-condition', 'P0015', mut(i, (k, d[1], vs, body[:j] + [('a', s[1], s[2], (s[3][0], 7996))] + body[j + 1:]))))
                 if s[0] == 's':
                     out.append(('undefined-var-subscript', 'P0015', mut(i, (k, d[1], vs, body[:j] + [('s', s[1], s[2], 7996)] + body[j + 1:]))))
                     continue
@@ -487,6 +510,13 @@ def plant_all(decls, ns, rng):
                     if iv and isinstance(iv['ty'], tuple): callee = fbnames.get(iv['ty'][1])
                     anyint = next((v['name'] for v in vs if v['ty'] == 'i'), None)
                     out.append(('call-instance-undeclared', 'P0021', mut(i, (k, d[1], vs, body[:j] + [('c', 7994, formal, pos, outs)] + body[j + 1:]))))
+                    # an undeclared variable that is used nowhere but as an argument of the invocation (input, positional, output target)
+                    if formal:
+                        out.append(('undefined-var-call-arg', 'P0015', mut(i, (k, d[1], vs, body[:j] + [('c', inst, [(formal[0][0], 7996)] + list(formal[1:]), pos, outs)] + body[j + 1:]))))
+                    if pos:
+                        out.append(('undefined-var-call-arg', 'P0015', mut(i, (k, d[1], vs, body[:j] + [('c', inst, formal, [7996] + list(pos[1:]), outs)] + body[j + 1:]))))
+                    if outs:
+                        out.append(('undefined-var-call-arg', 'P0015', mut(i, (k, d[1], vs, body[:j] + [('c', inst, formal, pos, [(outs[0][0], 7996)] + list(outs[1:]))] + body[j + 1:]))))
                     if anyint is not None and callee is not None:
                         out.append(('call-formal-unknown', 'P0007', mut(i, (k, d[1], vs, body[:j] + [('c', inst, (formal if not pos else []) + [(7993, anyint)], [], outs)] + body[j + 1:]))))
                         out.append(('call-output-unknown', 'P0009', mut(i, (k, d[1], vs, body[:j] + [('c', inst, formal, pos, outs + [(7992, anyint)])] + body[j + 1:]))))
